@@ -371,8 +371,10 @@ func main() {
 				si, sc := si, sc
 				saved := c.Deadline
 				c.Deadline = time.Now().Add(7 * time.Minute)
+				c.TolerateDivergence = true // deeper schedules reach nondeterminism the rewrites do not pin
 				st := mc.Explore(c, 2, 1, func(ch *mc.Chooser) { runOne(c, si, sc, ch) })
-				if !st.Capped {
+				c.TolerateDivergence = false
+				if !st.Capped && !st.Diverged {
 					done2 = append(done2, fmt.Sprint(si+1))
 				}
 				c.Deadline = saved
